@@ -291,5 +291,34 @@ example : ∀ v ∈ exVerts.toList, ∀ f ∈ exFaces,
   rcases hv with rfl | rfl | rfl | rfl <;> rcases hf with rfl | rfl | rfl | rfl <;>
     norm_num [faceNormal, faceCenter, three, V3.cross, V3.sdiv, V3.dot_def]
 
+/-! ## the same model terms, executed at `Rat` on the 3-4-5 pose (kernel evaluation, no axioms):
+boundary points are accepted, points just outside are rejected -/
+
+def exPoseQ : Pose Rat := ⟨⟨⟨1, 0, 0⟩, ⟨0, 3 / 5, -4 / 5⟩, ⟨0, 4 / 5, 3 / 5⟩⟩, ⟨1, 2, 3⟩⟩
+
+/-- `.ok b ↦ b`, NaN ↦ `none` -/
+def val (r : Except Err Bool) : Option Bool := match r with | .ok b => some b | .error _ => none
+
+example : pointInCylinder (exPoseQ.apply ⟨3 / 5, 4 / 5, 1 / 2⟩) exPoseQ 1 1 = true := by decide +kernel
+example : pointInCylinder (exPoseQ.apply ⟨3 / 5, 4 / 5, 501 / 1000⟩) exPoseQ 1 1 = false := by decide +kernel
+example : pointInBox (exPoseQ.apply ⟨1 / 2, -1, 1 / 4⟩) exPoseQ ⟨1, 2, 1 / 2⟩ = true := by decide +kernel
+example : pointInBox (exPoseQ.apply ⟨1 / 2, -1, 251 / 1000⟩) exPoseQ ⟨1, 2, 1 / 2⟩ = false := by decide +kernel
+example : pointInSphere (exPoseQ.apply ⟨3 / 5, 0, 4 / 5⟩) exPoseQ.t 1 = true := by decide +kernel
+example : val (pointInCone (exPoseQ.apply ⟨1 / 2, 0, 1 / 2⟩) exPoseQ 1 1) = some true := by decide +kernel
+example : val (pointInCone (exPoseQ.apply ⟨1 / 2, 1 / 1000, 1 / 2⟩) exPoseQ 1 1) = some false := by
+  decide +kernel
+example : val (pointInCone (exPoseQ.apply ⟨0, 0, 1⟩) exPoseQ 1 1) = some true := by decide +kernel
+example : val (pointInCapsule (exPoseQ.apply ⟨0, 0, 1⟩) exPoseQ (1 / 2) 1) = some true := by decide +kernel
+example : val (pointInCapsule (exPoseQ.apply ⟨0, 0, 1001 / 1000⟩) exPoseQ (1 / 2) 1) = some false := by
+  decide +kernel
+example : val (pointInEllipsoid (exPoseQ.apply ⟨3 / 5, 8 / 5, 0⟩) exPoseQ ⟨1, 2, 1 / 2⟩) = some true := by
+  decide +kernel
+example : val (pointInCapsule (exPoseQ.apply ⟨0, 0, 1⟩) exPoseQ (1 / 2) 0) = none := by decide +kernel
+example : pointInDisk (exPoseQ.apply ⟨3 / 5, 4 / 5, 0⟩) exPoseQ.t 1 exPoseQ.R.col2 = true := by decide +kernel
+example : pointInDisk (exPoseQ.apply ⟨3 / 5, 4 / 5, 1 / 1000000000⟩) exPoseQ.t 1 exPoseQ.R.col2 = false := by
+  decide +kernel
+example : (pointsInConvexMesh [exPoseQ.apply ⟨1 / 3, 1 / 3, 1 / 3⟩, exPoseQ.apply ⟨1 / 3, 1 / 3, 2 / 5⟩] exPoseQ
+    #[⟨0, 0, 0⟩, ⟨1, 0, 0⟩, ⟨0, 1, 0⟩, ⟨0, 0, 1⟩] exTris).toOption = some [true, false] := by decide +kernel
+
 end C13
 end D3
